@@ -626,6 +626,57 @@ func c05EffectiveVersion(spelling string) string {
 	}
 }
 
+// versionSpellings: (file, import target as the parser resolves it) for every import of a remote-style file by
+// a file of the closure - what the model's `closure.versions` reads
+func (g *cGraph) versionSpellings() []any {
+	reach := map[int]bool{0: true}
+	q := []int{0}
+	for len(q) > 0 {
+		x := q[0]
+		q = q[1:]
+		for _, c := range g.Imports[x] {
+			if !reach[c] {
+				reach[c] = true
+				q = append(q, c)
+			}
+		}
+	}
+	out := []any{}
+	for i := 0; i < g.N; i++ {
+		if !reach[i] {
+			continue
+		}
+		for k, t := range g.Imports[i] {
+			if !strings.HasPrefix(g.Paths[t], "/github.com/") {
+				continue
+			}
+			sp := g.Spell[i][k]
+			name, ver := sp, ""
+			if at := strings.Index(sp, "@"); at >= 0 {
+				name, ver = sp[:at], sp[at:]
+			}
+			if !strings.HasSuffix(name, ".sysl") {
+				name += ".sysl" // the listener appends the extension to the part before the version
+			}
+			out = append(out, []any{t, name + ver})
+		}
+	}
+	return out
+}
+
+// severalSpellingsOfOneVersion: some remote-style file is imported under two different spellings
+func (g *cGraph) severalSpellingsOfOneVersion() bool {
+	seen := map[int]string{}
+	for _, e := range g.versionSpellings() {
+		t, sp := e.([]any)[0].(int), e.([]any)[1].(string)
+		if old, ok := seen[t]; ok && old != sp {
+			return true
+		}
+		seen[t] = sp
+	}
+	return false
+}
+
 // versionConflict: some file is imported, by files of the closure, under two different versions
 func (g *cGraph) versionConflict() bool {
 	reach := map[int]bool{0: true}
@@ -675,7 +726,14 @@ func c05Corpus() []*cGraph {
 			w.Spell[i] = append(w.Spell[i], fmt.Sprintf("f%d", t))
 		}
 	}
-	return []*cGraph{w}
+	// one remote-style file under three spellings of one version: which spelling claims the file follows the
+	// completion order (known finding: the version recorded in source contexts follows it too)
+	v := &cGraph{N: 4, Fault: map[string]string{},
+		Paths:   []string{"f0.sysl", "f1.sysl", "f2.sysl", "/github.com/org/repo/r3.sysl"},
+		Imports: [][]int{{1, 2}, {3}, {3}, {}},
+		Spell:   [][]string{{"f1", "f2"}, {"//github.com/org/repo/r3.sysl@master"}, {"//github.com/org/repo/r3@main"}, {}},
+	}
+	return []*cGraph{w, v}
 }
 
 // files cut short at a point where everything before the cut is well-formed (the parser's complaint is about
@@ -821,6 +879,7 @@ func c05Execute(res *Result, jobs []c05Job, faults bool) {
 		return
 	}
 	byJob := map[int][]one{}
+	versionsChecked := map[*cGraph]bool{}
 	for i, o := range all {
 		g := jobs[o.job].g
 		run := o.run
@@ -850,6 +909,30 @@ func c05Execute(res *Result, jobs []c05Job, faults bool) {
 		for f, c := range cnt {
 			if c > 1 && f >= 0 && f < g.N {
 				res.Violate(Violation{Sig: "fetched-twice", What: fmt.Sprintf("file %s was fetched %d times", g.Paths[f], c), Input: in, Got: run.Arrivals})
+			}
+		}
+		if sp := g.versionSpellings(); !faults && len(sp) > 0 && !versionsChecked[g] {
+			versionsChecked[g] = true
+			res.Count("version-spellings-read-by-model")
+			// the model's reading of the version spellings (Closure.Version) against the harness' own
+			vr, err := RunOracle([]any{map[string]any{"op": "closure.versions", "spellings": sp}})
+			if err != nil || len(vr) != 1 {
+				res.Disagree(Disagreement{What: "oracle failed on closure.versions", Input: in})
+			} else {
+				if mbool(vr[0], "conflict") != g.versionConflict() {
+					res.Disagree(Disagreement{Input: in, Model: vr[0], Impl: g.versionConflict(), What: "model and harness read the version spellings differently"})
+				}
+				keys := mstrs(vr[0], "keys")
+				byFile := map[int]string{}
+				for k, e := range sp {
+					t := e.([]any)[0].(int)
+					if k < len(keys) {
+						if old, ok := byFile[t]; ok && old != keys[k] {
+							res.Disagree(Disagreement{Input: in, Model: keys, What: "the model gives two spellings of one file different keys"})
+						}
+						byFile[t] = keys[k]
+					}
+				}
 			}
 		}
 		if !faults && g.versionConflict() {
@@ -948,10 +1031,17 @@ func c05Execute(res *Result, jobs []c05Job, faults bool) {
 				}
 				if !proto.Equal(first.mod, o.run.mod) {
 					sig := "schedule-dependent-result"
+					what := "two completion orders of the same reads give different models"
 					if g.Max > 0 {
 						sig = "depth-limit:schedule-dependent-result"
+					} else if g.severalSpellingsOfOneVersion() && proto.Equal(stripped(first.mod), stripped(o.run.mod)) {
+						// the models differ in recorded source contexts only, and some file is imported under two
+						// spellings of one version (x@main, x@master, x): the version written into the source
+						// contexts of its elements is that of whichever import claimed the file
+						sig = "recorded-version-follows-the-import-that-claimed-the-file"
+						what = "two completion orders give models that differ in the version recorded in source contexts"
 					}
-					res.Violate(Violation{Sig: sig, What: "two completion orders of the same reads give different models",
+					res.Violate(Violation{Sig: sig, What: what,
 						Input: map[string]any{"graph": g, "picks": [][]int{firstPick, jobs[ji].picks[o.pick]}}, Got: o.run.Files, Want: first.Files})
 				}
 			}
